@@ -168,7 +168,12 @@ const userID = "user"
 var basePass = []byte("c09-passphrase")
 
 func openStore(dir string, pass []byte) (store.Store, error) {
-	return (&store.OnDiskStoreBuilder{}).New(dir, userID, pass)
+	// as gluon uses it: the on-disk store behind the write-controlled wrapper
+	st, err := (&store.OnDiskStoreBuilder{}).New(dir, userID, pass)
+	if err != nil {
+		return nil, err
+	}
+	return store.NewWriteControlledStore(st), nil
 }
 
 func idPath(dir string, id imap.InternalMessageID) string {
